@@ -1231,9 +1231,12 @@ def trim_cast_varchar(expression: exp.Expression) -> exp.Expression:
     if isinstance(operand, exp.Cast) and operand.to.this in [exp.DataType.Type.VARCHAR, exp.DataType.Type.TEXT]:
         return expression
 
-    return exp.Trim(
-        this=exp.Cast(this=operand, to=exp.DataType(this=exp.DataType.Type.VARCHAR, nested=False, prefix=False))
+    # keep the other arguments, ie: the characters to trim and the position (LTRIM/RTRIM)
+    new_trim = expression.copy()
+    new_trim.set(
+        "this", exp.Cast(this=operand, to=exp.DataType(this=exp.DataType.Type.VARCHAR, nested=False, prefix=False))
     )
+    return new_trim
 
 
 def try_parse_json(expression: exp.Expression) -> exp.Expression:
